@@ -530,6 +530,12 @@ func extractCrash(c *harness.Ctx, i int) {
 	sz := dsu.Sizes{Min: 1024, Avg: 2048, Max: 4096}
 	class := []string{"repetitive", "random", "zero-runs"}[rng.Intn(3)]
 	blob := dsu.MakeBlob(rng, class, 2048*(4+rng.Intn(12)), sz)
+	// (the other digest algorithm now and then: what is in place is recognised by hashing it)
+	sha256d := rng.Intn(4) == 0
+	if sha256d {
+		desync.Digest = desync.SHA256{}
+		defer func() { desync.Digest = desync.SHA512256{} }()
+	}
 	idx := dsu.RefIndex(blob, sz)
 	inPlace := rng.Intn(2) == 0
 	n := []int{1, 4, 10}[rng.Intn(3)]
@@ -593,9 +599,12 @@ func extractCrash(c *harness.Ctx, i int) {
 		dsu.WriteFile(behind, old)
 		os.Symlink(behind, dest)
 	}
-	c.Info("extract-crash inplace=%v n=%d kill-at-request=%d chunks=%d dest=%s name-length=%d", inPlace, n, k, len(idx.Chunks), destKind, len(destName))
+	c.Info("extract-crash inplace=%v n=%d kill-at-request=%d chunks=%d dest=%s name-length=%d sha256=%v", inPlace, n, k, len(idx.Chunks), destKind, len(destName), sha256d)
 	c.LogInfo()
 	args := []string{"extract", "-n", fmt.Sprint(n), "-s", srv.URL, "-e", "1"}
+	if sha256d {
+		args = append([]string{"--digest", "sha256"}, args...)
+	}
 	if inPlace {
 		args = append(args, "-k")
 	}
